@@ -1014,7 +1014,7 @@ Section TableProofs.
     (x = RExn /\ s' = s) \/ (R s' (fst (spec_step m o)) /\ out_equiv x (snd (spec_step m o))).
   Proof.
     intros HR. pose proof HR as [I P]. pose proof (R_nodup _ _ HR) as NDm.
-    destruct o as [k v bud|k|k|k v|n bud|shrink| | |md r| |k v|k v]; simpl.
+    destruct o as [k v bud|k|k|k v|n bud|shrink| | |md r| |k v|k v|k v]; simpl.
     - (* insert *)
       destruct (hfind s k) as [[[[gi idx] pos] v0]|] eqn:E.
       + intros H; inversion H; subst. right.
@@ -1112,6 +1112,10 @@ Section TableProofs.
         destruct (hadd_nomem s (k, v)) as [s1|] eqn:Ea; intros H; inversion H; subst; [right|left; auto].
         destruct (hadd_nomem_spec _ _ _ _ I Hno Ea) as [I1 P1].
         unfold sp_mem. rewrite (sp_find_notin _ _ Hnm). simpl. split; auto. split; auto. rewrite P1. apply perm_skip. exact P.
+    - (* insert whose creator throws *)
+      destruct (hfind s k) as [[[[gi idx] pos] v0]|] eqn:E; intros H; inversion H; subst; [right|left; auto].
+      pose proof (hfind_in _ _ _ _ _ _ I E) as Hin. apply (Permutation_in _ P) in Hin.
+      unfold sp_mem. rewrite (sp_find_in _ _ _ NDm Hin). simpl. split; auto.
   Qed.
 
   Lemma out_equiv_refl x : out_equiv x x.
@@ -1480,7 +1484,7 @@ Section TableProofs.
 
   Theorem capok_step s o : Inv s -> CapOK s -> CapOK (fst (step s o)).
   Proof.
-    intros I C. destruct o as [k v bud|k|k|k v|n bud|shrink| | |md r| |k v|k v]; simpl; auto.
+    intros I C. destruct o as [k v bud|k|k|k v|n bud|shrink| | |md r| |k v|k v|k v]; simpl; auto.
     - destruct (hfind s k) as [[[[gi idx] pos] v0]|] eqn:E; auto.
       destruct (hadd s (k, v) bud) as [s1|] eqn:Ea; auto. simpl. eapply hadd_capok; eauto. eapply hfind_none; eauto.
     - destruct (hfind s k) as [[[[gi idx] pos] v0]|] eqn:E; auto. simpl.
@@ -1537,6 +1541,7 @@ Section TableProofs.
       + assert (NDl : NoDup (K ((k, v) :: hall s))) by (simpl; constructor; [exact Hnew|apply I]).
         eapply NoDup_keys_perm; [|exact NDl]. unfold hall. rewrite Eg, !gall_cons. rewrite P. reflexivity.
       + unfold CapOK in C. rewrite Eg in C. rewrite (bcount_log _ _ L). exact C.
+    - destruct (hfind s k) as [[[[gi idx] pos] v0]|]; auto.
   Qed.
 
   (* an insert of an absent key can only throw from Buckets::Create's length_error (table beyond 2^maxLog buckets; or the
